@@ -306,4 +306,6 @@ def build(ctx):
         return be.prove_smt(goal, h + pow_axioms([goal] + h))
 
     obs.append(Obligation("canary.smt", "CANARY (must be refuted): k_ro <= 0.5 k_ro_max at every record", canary, fs, "SMT", expect=be.REFUTED))
+    if ctx.tier == "thorough":
+        obs.append(lean_obligation(ctx, ['pyvc_rpow_unit', 'pyvc_zero_rpow', 'pyvc_rpow_mono']))
     return obs
